@@ -1,0 +1,26 @@
+//go:build verif
+
+package types
+
+// Contracts for x/registry/types, read by /verif/bin/govc. Comment-only: compiled only with -tags verif and adds
+// no code. These functions work on strings and ABI encodings, which the verifier does not model: their
+// contracts are trusted (listed as assumptions in the evidence of every check that uses them).
+// strip0x(s) is s without a leading "0x"/"0X"; ishex(s) holds when big.Int.SetString(s, 16) accepts s.
+
+//@ func Remove0xPrefix(hexString) (r)
+//@ trusted
+//@ ensures [strips_the_prefix] r == strip0x(hexString)
+
+// DecodeValue hex-decodes the value without its prefix and ABI-unpacks it; go-ethereum's Unpack rejects empty data
+// when arguments are expected, so an accepted value is a non-empty string of hex digits after the prefix.
+
+//@ func DecodeValue(value, datatype) (out, err)
+//@ trusted
+//@ ensures [accepted_values_are_hex_after_the_prefix] err == nil ==> ishex(strip0x(value))
+
+//@ func IsValueDecodable(value, datatype) (err)
+//@ trusted
+//@ ensures [accepted_values_are_hex_after_the_prefix] err == nil ==> ishex(strip0x(value))
+
+//@ func DecodeQueryType(data) (queryType, rest, err)
+//@ trusted
